@@ -27,8 +27,9 @@ type PingPongHandler struct {
 type pingPongState struct {
 	started time.Time
 
-	notify  chan struct{}
-	expires time.Time
+	notify     chan struct{}
+	notifyOnce sync.Once
+	expires    time.Time
 }
 
 var _ PingHandler = &PingPongHandler{}
@@ -207,7 +208,11 @@ func (h *PingPongHandler) handleResponse(_ *mgr.WorkerCtx, _ frame.Frame, hdr *P
 	}
 
 	// Notify waiters and set state again to block too quick requests.
-	close(pingState.notify)
+	// A retry may re-register a state whose first response arrived in the
+	// meantime, so the channel must only be closed once.
+	pingState.notifyOnce.Do(func() {
+		close(pingState.notify)
+	})
 
 	// DEBUG:
 	// w.Debug(
